@@ -169,6 +169,14 @@ def replay_findings(findings, max_per_key=1):
 def write_replay(f):
     d = os.path.join(VERIF, 'replays')
     os.makedirs(d, exist_ok=True)
+    if f.lines is None:
+        # a counterexample whose native outcome is a hang (e.g. lock-order deadlock): description only
+        h = hashlib.sha256(f.key.encode()).hexdigest()[:12]
+        p = os.path.join(d, '%s-%s.txt' % (f.prop, h))
+        with open(p, 'w') as fh:
+            fh.write('#! property=%s key=%s (not replayable: the native outcome is a hang)\n#! %s\n' % (f.prop, f.key, f.detail))
+        f.replay_path = p
+        return p
     h = hashlib.sha256(('\n'.join(f.lines) + f.key).encode()).hexdigest()[:12]
     p = os.path.join(d, '%s-%s.txt' % (f.prop, h))
     with open(p, 'w') as fh:
